@@ -91,13 +91,16 @@ TABLE = {
 
 DESIGN_REF = {k: f'DESIGN.md §3 {k}' for k in TABLE}
 
+# Modules that have been reviewed, run quiet at several seeds and mutation-tested.
+READY = ['C03', 'C19']
+
 
 def main():
   checks = []
   na = []
   for pid in sorted(TABLE):
     level, technique, text, note = TABLE[pid]
-    if os.path.exists(os.path.join(ROOT, 'vf', 'props', pid.lower() + '.py')):
+    if pid in READY and os.path.exists(os.path.join(ROOT, 'vf', 'props', pid.lower() + '.py')):
       checks.append({
           'property_id': pid,
           'quick_cmd': f'python3 check.py {pid} --tier quick',
